@@ -159,7 +159,7 @@ def run_file(item):
     res = {'counters': {'files': 0, 'ops': 0, 'nontrivial': 0, 'gap_files': 0, 'truncated_files': 0},
            'outcomes': {}, 'violations': [], 'samples': []}
     variants = [(None, data, False)]
-    if truncate and kind not in ('str', 'strb', 'shortmid', 'shortmid-il'):
+    if truncate and kind not in ('str', 'strb') and not kind.startswith('shortmid'):
         for c in cuts_for(layout, tier):
             variants.append((c, data[:c], False))
     if kind == 'ts':
@@ -177,7 +177,7 @@ def run_file(item):
         if cut is not None:
             res['counters']['truncated_files'] += 1
         if cut is None and L >= 0:
-            exp = H.expected_array(ref, F.A) if kind not in ('daqmx', 'shortmid', 'shortmid-il') else None
+            exp = H.expected_array(ref, F.A) if (kind != 'daqmx' and not kind.startswith('shortmid')) else None
             if exp is not None and exp[1] != L:
                 bad.append(('full-length', 'eager', 'len', exp[1], L))
         res['outcomes']['clean' if not bad else 'deviates'] = res['outcomes'].get('clean' if not bad else 'deviates', 0) + 1
@@ -215,7 +215,7 @@ def files(tier):
     import itertools
     out += [('int', ((a, 1), (b, 1), (c, 1))) for a, b, c in itertools.product((1, 2, 3, 4), repeat=3)]
     # short last chunks in segments that are not the last one
-    for kind in ('shortmid', 'shortmid-il'):
+    for kind in ('shortmid', 'shortmid-il', 'shortmid-daqmx'):
         opts_ = [(2, 2), (3, 2), (2, 3), (3, 1)] if kind == 'shortmid' else [(2, 2), (3, 2), (2, 3)]
         out += [(kind, (x,)) for x in opts_]
         out += [(kind, (x, y)) for x in opts_ for y in opts_ + ['abs']]
@@ -239,7 +239,7 @@ def run(ctx):
     cov = {'evaluations': c['ops'], 'files': c['files'], 'distinct_nontrivial': c['nontrivial'],
            'rule': 'evaluations = individual window/slice/index operations; distinct_nontrivial = distinct files '
                    '(distinct parameter tuples incl. cut offset) whose channel holds >= 2 values',
-           'gap_files': c['gap_files'], 'truncated_files': c['truncated_files'], 'kinds': F.F4_KINDS + ['shortmid', 'shortmid-il'],
+           'gap_files': c['gap_files'], 'truncated_files': c['truncated_files'], 'kinds': F.F4_KINDS + ['shortmid', 'shortmid-il', 'shortmid-daqmx'],
            'outcomes': m['outcomes'], 'samples': m['samples'][:5], 'exhaustive': True, 'vacuity_failures': vac}
     return cov, m['violations']
 
